@@ -142,8 +142,8 @@ def run(chk):
     chk.rule("R07.1", "wrapper wiring around the reference sgp4 library")
     chk.rule("R07.2", "native model: WGS-72 constants by value, unit conversions, Newton Kepler iteration")
     chk.rule("R07.3", "native model: numeric literals equal the frozen reference")
-    r07_1(chk)
-    r07_2(chk)
-    r07_3(chk)
+    chk.guard(r07_1, chk)
+    chk.guard(r07_2, chk)
+    chk.guard(r07_3, chk)
     chk.assume("python-sgp4's twoline2rv/propagate is the reference implementation (Vallado); its API takes a UTC calendar tuple and returns km, km/s in TEME")
     chk.assume("R07.3 reference = literals of the pinned tree (test_sgp4beta agrees with the reference states to the suite's tolerance)")
